@@ -344,7 +344,7 @@ def run_invariance(ctx):
 
 
 def run(ctx):
-    n = ctx.n(420, 1400)
+    n = ctx.n(420, 4000)
     for it in range(n):
         if ctx.out_of_time():
             ctx.notes.append(f'time budget reached after {it} rounds')
